@@ -71,7 +71,7 @@ where
         #[cfg(feature = "full-lexer")]
         let lxr =
             lxr.filter_ok(|(tok, _)| !matches!(tok, Tok::Comment { .. } | Tok::NonLogicalNewline));
-        Self::parse_tokens(lxr, source_path)
+        Self::parse_tokens(lxr, source_path).map_err(|error| at_least(error, offset))
     }
     fn lex_starts_at(
         source: &str,
@@ -384,7 +384,16 @@ pub fn parse_starts_at(
     offset: TextSize,
 ) -> Result<ast::Mod, ParseError> {
     let lxr = lexer::lex_starts_at(source, mode, offset);
-    parse_tokens(lxr, mode, source_path)
+    parse_tokens(lxr, mode, source_path).map_err(|error| at_least(error, offset))
+}
+
+/// The start marker carries no position, so an input without any token (empty or blank text) reports
+/// its error at offset 0; no error of a text starting at `offset` lies before it.
+fn at_least(mut error: ParseError, offset: TextSize) -> ParseError {
+    if error.offset < offset {
+        error.offset = offset;
+    }
+    error
 }
 
 /// Parse an iterator of [`LexResult`]s using the specified [`Mode`].
